@@ -8,7 +8,16 @@ import (
 
 func init() {
 	engines["C01"] = func() *ShardResult { return runCrash("C01") }
-	engines["C02"] = func() *ShardResult { return runCrash("C02") }
+	engines["C02"] = func() *ShardResult {
+		total := *fBudget
+		*fBudget = total * 2 / 3
+		res := newResult()
+		res.merge(runCrash("C02"), "wal_")
+		*fBudget = total / 3
+		res.merge(runSegCrash(), "segment_")
+		*fBudget = total
+		return res
+	}
 	engines["C03"] = func() *ShardResult { return runCrash("C03") }
 	engines["C04"] = func() *ShardResult { return runCrash("C04") }
 }
@@ -212,4 +221,42 @@ func itoa(i int) string {
 		i /= 10
 	}
 	return s
+}
+
+// runSegCrash: the segment-level variant (payloads of 0/8/16 bytes, frames of
+// 1-3 chunks) nested deep.
+func runSegCrash() *ShardResult {
+	res := newResult()
+	depth := 4
+	if *fTier == "thorough" {
+		depth = 6
+	}
+	st := &core.SegCrashStats{}
+	cfg := core.SegCrashCfg{Depth: depth, Shapes: [][]int{{0}, {8}, {16}, {0, 0}, {8, 0}, {0, 16}, {16, 8, 0}}, Deadline: time.Now().Add(*fBudget), Shard: *fShard, NShards: *fNShards, MaxFindings: 30}
+	e := core.NewSegCrashEngine(cfg, st)
+	e.Run()
+	res.Findings = e.Findings
+	res.Bounds["depth"] = depth
+	res.Bounds["batch_shapes_payload_bytes"] = cfg.Shapes
+	res.Counts["batches_recorded"] = int64(st.Batches)
+	res.Counts["states_expanded"] = int64(st.States)
+	res.Counts["recoveries_run"] = int64(st.Recoveries)
+	res.Counts["transitions"] = int64(st.Images)
+	res.Counts["evaluations"] = int64(st.Images)
+	res.Counts["traces_validated"] = int64(st.Recoveries + st.Batches)
+	for h := range st.ImgHashes {
+		res.Sets["states"] = append(res.Sets["states"], "seg:"+h[:14])
+	}
+	for h := range st.Torn {
+		res.Sets["nontrivial"] = append(res.Sets["nontrivial"], "seg:"+h[:14])
+	}
+	for k, v := range st.Outcomes {
+		res.hist("recovery_outcomes", k, int64(v))
+	}
+	res.Mins["levels_completed"] = int64(st.LevelsDone)
+	if st.DeadlineHit || st.LevelsDone < depth {
+		res.Exhaustive = false
+	}
+	res.Samples = st.Samples
+	return res
 }
